@@ -294,7 +294,11 @@ func EncodeRemainLength(r io.ByteReader) (int, error) {
 	var multiplier uint32
 	for {
 		digit, err := r.ReadByte()
-		if err != nil && err != io.EOF {
+		if err != nil {
+			// the input ends inside the variable byte integer: that is not the value 0
+			if err == io.EOF {
+				err = io.ErrUnexpectedEOF
+			}
 			return 0, err
 		}
 		vbi |= uint32(digit&127) << multiplier
@@ -305,6 +309,10 @@ func EncodeRemainLength(r io.ByteReader) (int, error) {
 			break
 		}
 		multiplier += 7
+		// a variable byte integer has at most four bytes
+		if multiplier > 21 {
+			return 0, codes.ErrMalformed
+		}
 	}
 	return int(vbi), nil
 }
